@@ -328,6 +328,16 @@ def corr(ctx, binary, n, corpus):
     meta = json.load(open(os.path.join(ctx.dir, "cases.meta.json")))
     vlib.merge_meta(ctx, meta)
     cases, tols, rc_, rt_, ext = eval_all(ctx, "cases", ("ocases", "sagacases", "ecases"))
+    # a shard that produced neither a result nor a Coq error (killed / timed out on an overloaded machine) is evaluated once more, alone
+    def again(rs):
+        for i, r in enumerate(rs):
+            if not r["ok"] and r["mism"] is None and not (r.get("error") or "").strip():
+                rs[i] = vlib.eval_shards([r["path"]], jobs=1)[0]
+                ctx.notes.append("shard %s re-evaluated after an empty coqc result" % os.path.basename(r["path"]))
+    again(rc_)
+    again(rt_)
+    for st in ext:
+        again(ext[st])
     ctx.oblige(len(rc_) + len(rt_), sum(1 for r in rc_ + rt_ if r["ok"]))
     raw = vlib.load_jsonl(os.path.join(ctx.dir, "cases.jsonl"))
     rawt = vlib.load_jsonl(os.path.join(ctx.dir, "tol.jsonl")) if os.path.exists(os.path.join(ctx.dir, "tol.jsonl")) else []
